@@ -86,7 +86,7 @@ def build(seed):
                                                                    list(sp.filter(["2.1", "1.5"] + list(reversed(fam))))])(specifiers.SpecifierSet("==" + x + ".*")))
     for fam in [["Foo_Bar", "foo-bar", "FOO.BAR", "foo__bar"], ["a", "A"]]:
         for x in fam:
-            add("fam.name", lambda x=x: [utils.canonicalize_name(x), utils.is_normalized_name(x), str(requirements.Requirement(x + "[E_x]>=1")),
+            add("fam.name", lambda x=x, fam=fam: [utils.canonicalize_name(x), utils.is_normalized_name(x), str(requirements.Requirement(x + "[E_x]>=1")),
                                          hash(requirements.Requirement(x)) == hash(requirements.Requirement(fam[0]))])
     for fam in [["os_name=='a'", "os.name == \"a\"", "(os_name == 'a')"], ["extra=='A_b'", "extra == 'a-b'", "'a.B' == extra"]]:
         for x in fam:
